@@ -1006,12 +1006,22 @@ def gen_UnitsText(repo):
         raise AnchorLost("units.py:parse_units initial block")
     # second pass over the blocks: default exponent, reader, negation separator
     dflt_exp = reader = neg_sep = None
+    strict_exp = False
     for n in top:
         if isinstance(n, ast.For) and norm(n.iter) == "blocks" and norm(n.target) == "b":
             for st in n.body:
                 if isinstance(st, ast.If) and norm(st.test) == 'b[2]==""' and len(st.body) == 1 \
                         and isinstance(st.body[0], ast.Assign) and norm(st.body[0].targets[0]) == "b[2]":
                     dflt_exp = const_str(st.body[0].value)
+                    # optional `elif not (<strict ASCII integer test>): raise` before int()
+                    if not st.orelse:
+                        strict_exp = False
+                    elif len(st.orelse) == 1 and isinstance(st.orelse[0], ast.If) and not st.orelse[0].orelse \
+                            and any(isinstance(x, ast.Raise) for x in st.orelse[0].body) \
+                            and norm(st.orelse[0].test) == 'not(b[2].isascii()and(b[2][1:]ifb[2][0]=="-"elseb[2]).isdecimal())':
+                        strict_exp = True
+                    else:
+                        raise AnchorLost("units.py:parse_units exponent guard (elif after the default exponent)")
                 if isinstance(st, ast.Assign) and norm(st.targets[0]) == "b[2]" and isinstance(st.value, ast.Call) \
                         and isinstance(st.value.func, ast.Name) and norm(st.value.args[0]) == "b[2]" and len(st.value.args) == 1:
                     reader = st.value.func.id
@@ -1135,6 +1145,8 @@ def gen_UnitsText(repo):
     L.append("/-- exponent pass: `if b[2] == \"\": b[2] = <default>`, `b[2] = <reader>(b[2])`, `if b[0] == <sep>: b[2] = -b[2]` -/")
     L.append("def puDefaultExp : String := %s" % lean_str(dflt_exp))
     L.append("def puExpReader : String := %s" % lean_str(reader))
+    L.append("/-- `elif not (b[2].isascii() and (b[2][1:] if b[2][0] == \"-\" else b[2]).isdecimal()): raise` present before the reader -/")
+    L.append("def puStrictExponent : Bool := %s" % ("true" if strict_exp else "false"))
     L.append("def puNegSep : Char := '%s'" % neg_sep)
     L.append("/-- `addunit`: accept test, and whether the else branch raises -/")
     L.append("def puAddUnitTest : String := %s" % lean_str(au_test))
@@ -1358,9 +1370,24 @@ def gen_GeomPy(repo):
              'self._boundary_conditions["x"]=="periodical"': "px",
              'self._boundary_conditions["y"]=="periodical"': "py",
              'self._boundary_conditions["z"]=="periodical"': "pz"}
-    pro = [_norm(grid, st) for st in gn.body if isinstance(st, ast.Assign)]
-    if pro[:2] != ["i=self.get_cell_index(position)", "x,y,z=self.get_cell_coordinates(i)"]:
+    # structural prologue: L1 = self.get_cell_index(<param>); a, b, c = self.get_cell_coordinates(L1); LST = [] ... return LST
+    # (the names of the locals are free: a local rename does not lose the anchor)
+    npar = gn.args.args[1].arg
+    iloc = [st.targets[0].id for st in gn.body if isinstance(st, ast.Assign) and isinstance(st.targets[0], ast.Name)
+            and _norm(grid, st.value) == "self.get_cell_index(%s)" % npar]
+    cloc = [[e.id for e in st.targets[0].elts] for st in gn.body if isinstance(st, ast.Assign) and isinstance(st.targets[0], ast.Tuple)
+            and len(iloc) == 1 and _norm(grid, st.value) == "self.get_cell_coordinates(%s)" % iloc[0]
+            and all(isinstance(e, ast.Name) for e in st.targets[0].elts)]
+    lst = [st.targets[0].id for st in gn.body if isinstance(st, ast.Assign) and isinstance(st.targets[0], ast.Name)
+           and _norm(grid, st.value) == "[]"]
+    ret = gn.body[-1]
+    if len(iloc) != 1 or len(cloc) != 1 or len(cloc[0]) != 3 or len(lst) != 1 \
+            or not (isinstance(ret, ast.Return) and _norm(grid, ret.value) == lst[0]):
         raise AnchorLost("rdgridspace.py:get_neighbors prologue")
+    names = dict(names)
+    for k in ("x", "y", "z"):
+        names.pop(k, None)
+    names.update({cloc[0][0]: "x", cloc[0][1]: "y", cloc[0][2]: "z"})
     rules = []
     for st in gn.body:
         if isinstance(st, ast.If):
@@ -1368,7 +1395,7 @@ def gen_GeomPy(repo):
                 raise AnchorLost("rdgridspace.py:get_neighbors rule shape")
             arg = _single_call_arg(st.body[0].value, "append")
             inner = _single_call_arg(arg, "get_cell_index") if arg is not None else None
-            if inner is None or _norm(grid, st.body[0].value.func) != "neighbors.append":
+            if inner is None or _norm(grid, st.body[0].value.func) != lst[0] + ".append":
                 raise AnchorLost("rdgridspace.py:get_neighbors rule body")
             rules.append("(%s, %s)" % (_ExprTrMin(grid, names).tr(st.test), _triple(grid, inner, names, "get_neighbors")))
     if not rules:
@@ -1560,9 +1587,13 @@ def gen_GeomPy(repo):
     L.append("def edgeMatches (ei ej i j : Int) : Bool := %s" % em)
     gci = graph.func("get_cell_index", "RDGraphSpace")
     bad = None
+    # the local that holds `int(<position parameter>)`, whatever it is called (a local rename does not lose the anchor)
+    gpar = gci.args.args[1].arg
+    gloc = [st.targets[0].id for st in gci.body if isinstance(st, ast.Assign) and isinstance(st.targets[0], ast.Name)
+            and _norm(graph, st.value) == "int(%s)" % gpar]
     for st in gci.body:
-        if isinstance(st, ast.If) and any(isinstance(b, ast.Raise) for b in st.body):
-            bad = _ExprTrMin(graph, {"cell_index": "p", "self.size()": "size"}).tr(st.test)
+        if isinstance(st, ast.If) and any(isinstance(b, ast.Raise) for b in st.body) and len(gloc) == 1:
+            bad = _ExprTrMin(graph, {gloc[0]: "p", "self.size()": "size"}).tr(st.test)
     if bad is None:
         raise AnchorLost("rdgraphspace.py:get_cell_index range test")
     L.append("/-- `RDGraphSpace.get_cell_index`: raises when this holds -/")
@@ -1952,6 +1983,37 @@ def gen_Network(repo):
         raise AnchorLost("rdnetwork.py:_assert_validity raise conditions")
     L.append("def validityRaiseConds : List String := %s\n" % lean_list([lean_str(s) for _, s in conds]))
 
+    # ---- ownership of the units system: the constructor and the setter of Species / Reaction / RDNetwork store a COPY
+    # of the object they are given (so that later in-place edits of the caller's object, or of the shared default
+    # argument, cannot change an object already built)
+    rows = []
+    for cls in ("Species", "Reaction", "RDNetwork"):
+        ini = None
+        for n in net.tree.body:
+            if isinstance(n, ast.ClassDef) and n.name == cls:
+                for f in n.body:
+                    if isinstance(f, ast.FunctionDef) and f.name == "__init__":
+                        ini = f
+        if ini is None:
+            raise AnchorLost("rdnetwork.py:%s.__init__" % cls)
+        par = "units_system"
+        if par not in [a.arg for a in ini.args.args]:
+            raise AnchorLost("rdnetwork.py:%s.__init__ units_system parameter" % cls)
+        ctor_vals = [_norm(net, n.value) for n in ast.walk(ini) if isinstance(n, ast.Assign)
+                     and _norm(net, n.targets[0]) == "self.units_system"]
+        st = setter(cls, "units_system")
+        spar = st.args.args[1].arg
+        set_vals = []
+        for n in ast.walk(st):
+            if isinstance(n, ast.If) and ("type(%s)==UnitsSystem" % spar) in _norm(net, n.test):
+                set_vals += [_norm(net, a.value) for a in n.body if isinstance(a, ast.Assign)]
+        if len(ctor_vals) != 1 or len(set_vals) != 1:
+            raise AnchorLost("rdnetwork.py:%s units_system assignments" % cls)
+        rows.append((cls, ctor_vals[0] == par + ".copy()", set_vals[0] == spar + ".copy()"))
+    L.append("/-- (class, the constructor hands a copy of its `units_system` argument to the setter, the setter stores a copy) -/")
+    L.append("def unitsSystemCopied : List (String × Bool × Bool) := %s\n" % lean_list(
+        ["(%s, %s, %s)" % (lean_str(c), "true" if a else "false", "true" if b else "false") for c, a, b in rows]))
+
     # ---- label rules
     al_fn = vp.func("assert_string_is_a_valid_label")
     allab = _alpha(al_fn)
@@ -2201,6 +2263,12 @@ def gen_Validation(repo):
             raise AnchorLost("rdnetwork.py:%s number branch" % fname)
         L.append("def %s (n i : Int) : Bool := %s" % (lean, ExprTr(net, {iloc[0]: "i", cnt: "n"}).tr(inner[0].test)))
     L.append("")
+
+    # ---- get_species_index: the object state the lookup depends on (a label must be resolved against the CURRENT list)
+    gsx = _class_func(net, "RDNetwork", "get_species_index")
+    attrs = sorted({n.attr for n in ast.walk(gsx) if isinstance(n, ast.Attribute) and isinstance(n.value, ast.Name) and n.value.id == "self"})
+    L.append("/-- attributes of `self` that `RDNetwork.get_species_index` reads or writes -/")
+    L.append("def speciesLookupState : List String := %s\n" % lean_list([lean_str(a) for a in attrs]))
 
     # ---- named dimensions and the dimension every quantity field demands
     named = {}
